@@ -7,7 +7,10 @@ from google.protobuf.compiler import plugin_pb2
 VERSIONS = ["v1", "v1beta1", "v1p1beta1", "v2alpha", ""]
 NS_POOL = ["acme", "cloud", "google", "ads", "x1"]
 NAMES = ["lib", "library", "pub_sub", "ai"]
-FILE_BASES = ["lib", "types", "service", "foo.bar", "import", "metadata", "class", "common_types", "v1_api", "request"]
+FILE_BASES = ["lib", "types", "service", "foo.bar", "import", "metadata", "class", "common_types", "v1_api", "request",
+              # names protoc accepts and the keyword/dot sanitiser leaves alone: leading underscore(s) (NOT "private": that rule is about
+              # TEMPLATE names), trailing underscore, a lone underscore, digits, upper case (module name = snake case of the file name)
+              "_internal", "__private", "internal_", "_", "_Internal2_", "Log2", "AuditLog", "_v1", "__all__"]
 
 
 SUB_SEGS = ["admin", "s", "types2", "audit", "t", "u", "admin"]      # a segment may repeat along a path (`admin.admin`)
@@ -144,6 +147,24 @@ def build_files(case):
     return files, targets
 
 
+def expected_modules(case):
+    """per target file, the module name its types module must carry: the file name with `.` -> `_`, `_` appended for keywords and
+    the four reserved names, in snake case — or None where two files of one package sanitise to the same name (the disambiguation
+    order is the code's business; the placement oracle still demands ONE module per file there)"""
+    import keyword
+    from gapic.utils import to_snake_case
+    out = []
+    for fd in case["files"]:
+        n = fd["base"].replace(".", "_")
+        if n in set(keyword.kwlist) | {"metadata", "retry", "timeout", "request"}:
+            n += "_"
+        out.append((fd["pkg"], to_snake_case(n)))
+    seen = {}
+    for pk, n in out:
+        seen[(pk, n.rstrip("_"))] = seen.get((pk, n.rstrip("_")), 0) + 1
+    return [n if seen[(pk, n.rstrip("_"))] == 1 else None for pk, n in out]
+
+
 def name_values(opts):
     """the values of the `name` override in an option list, in order (`name` is not a bare flag: only the prefixed key is read)"""
     return [o.strip().split("=", 1)[1] for o in opts if o.strip().startswith("python-gapic-name=")]
@@ -232,6 +253,8 @@ def oracle(ctx, case, res, files, targets, payload, mroot=None):
     # every directory from the root down to them carries an __init__.py
     k = 0
     type_dirs, svc_dirs = set(), set()
+    want_mod = expected_modules(case)
+    underscore_ok = set()
     for i, fd in enumerate(case["files"]):
         subpath = fd["pkg"][len(case["pkg"]):].strip(".").replace(".", "/")
         base = root + ("/" + subpath if subpath else "")
@@ -245,6 +268,11 @@ def oracle(ctx, case, res, files, targets, payload, mroot=None):
             where = sorted(f.name for f in res.file for m in mine if f"class {m}(" in f.content and "/types/" in f.name)
             ctx.fail("types-module-placement", f"messages {mine} of {fd['base']}.proto (package {fd['pkg']}) are not in one types module under "
                      f"{tdir}: found in {where}", payload)
+        elif mine and want_mod[i] is not None and holders[0] != tdir + want_mod[i] + ".py":
+            ctx.fail("types-module-name", f"the types module of {fd['base']}.proto (package {fd['pkg']}) is {holders[0]!r}, expected {tdir + want_mod[i] + '.py'!r}", payload)
+        if fd["base"].startswith("_"):
+            # an underscore-named PROTO FILE gives an underscore-named types module; that is not a private TEMPLATE
+            underscore_ok.update(holders if mine else [n for n in mods if n.rsplit("/", 1)[1].startswith("_")])
         dirs = [base]
         if fd["messages"] or fd["enum"] or fd["services"]:
             dirs.append(base + "/types")
@@ -264,6 +292,12 @@ def oracle(ctx, case, res, files, targets, payload, mroot=None):
                 if d == root:
                     break
                 d = os.path.dirname(d)
+    # a types package imports only modules that were emitted next to it
+    for tdir in sorted(type_dirs):
+        init = next((f.content for f in res.file if f.name == tdir + "__init__.py"), None)
+        for m in sorted(set(re.findall(r"^from \.([A-Za-z0-9_]+) import", init or "", re.M))):
+            if tdir + m + ".py" not in nameset:
+                ctx.fail("types-init-imports-unemitted-module", f"{tdir}__init__.py imports `.{m}` but {tdir}{m}.py is not in the response", payload)
     stray = [n for n in ntypes if os.path.dirname(n) + "/" not in type_dirs]
     if stray:
         ctx.fail("types-module-placement", f"types modules outside the sub-package directories of the target files: {stray[:4]}", payload)
@@ -277,7 +311,7 @@ def oracle(ctx, case, res, files, targets, payload, mroot=None):
         ctx.fail("dependency-file-emitted", f"output for a dependency-only file: {[n for n in names if 'shared' in n or n.startswith('other/')][:3]}", payload)
     for n in names:
         b = n.split("/")[-1]
-        if b.startswith("_") and b != "__init__.py":
+        if b.startswith("_") and b != "__init__.py" and n not in underscore_ok:
             ctx.fail("private-template-emitted", f"underscore-prefixed file emitted: {n}", payload)
     for f in res.file:
         if f.name.endswith(".py") and not f.name.endswith("__init__.py"):
@@ -604,6 +638,14 @@ CORPUS = [
      "opts": ["python-gapic-name=a", "transport=grpc", "python-gapic-name=shelf", "autogen-snippets=false", "python-gapic-namespace=org.acme", "some-other-plugin-opt=1",
               "python-gapic-name=book_shelf", "warehouse-package-name=first", "python-gapic-warehouse-package-name=second"],
      "unknown": ["zzz=1", "transport=rest", "python-gapic-name=book_shelf"]},
+    # target proto files whose names start with underscores (one defines the service, one sits in a sub-package): each keeps its types
+    # module `types/_internal.py`, `types/__private.py` — the "private" rule is about TEMPLATE names
+    {"pkg": "acme.lib.v1", "ns": ["acme"], "name": "lib", "version": "v1", "deps": False, "sub": ["admin"], "override_name": None, "override_ns": None,
+     "files": [{"base": "_internal", "pkg": "acme.lib.v1", "messages": 1, "enum": False, "services": 1},
+               {"base": "lib", "pkg": "acme.lib.v1", "messages": 1, "enum": True, "services": 0},
+               {"base": "_", "pkg": "acme.lib.v1", "messages": 1, "enum": False, "services": 0},
+               {"base": "__private", "pkg": "acme.lib.v1.admin", "messages": 2, "enum": False, "services": 1}],
+     "opts": ["transport=grpc+rest", "autogen-snippets=false"], "unknown": ["zzz=1"]},
     # a package without namespace segments (setup.py.j2 crashed before the C11 fix: commit)
     {"pkg": "lib.v1", "ns": [], "name": "lib", "version": "v1", "deps": False, "sub": None, "override_name": None, "override_ns": None,
      "files": [{"base": "lib", "pkg": "lib.v1", "messages": 1, "enum": False, "services": 1}],
@@ -611,19 +653,53 @@ CORPUS = [
 ]
 
 
+INIT_PROTO_CASE = {"pkg": "acme.lib.v1", "ns": ["acme"], "name": "lib", "version": "v1", "deps": False, "sub": None, "override_name": None, "override_ns": None,
+                   "init_proto": True,
+                   "files": [{"base": "lib", "pkg": "acme.lib.v1", "messages": 1, "enum": False, "services": 1},
+                             {"base": "__init__", "pkg": "acme.lib.v1", "messages": 1, "enum": False, "services": 0}],
+                   "opts": ["transport=grpc", "autogen-snippets=false"], "unknown": ["zzz=1"]}
+
+
+def run_init_proto(ctx, case):
+    """a target file named `__init__.proto` (open finding, corpus/C11/init_proto.json): its module name is `__init__`, so its types
+    module and the types package's own `__init__.py` are ONE response name; reported under its own key, apart from the general oracle"""
+    files, targets = build_files(case)
+    payload = {"case": case}
+    res, err = genrun.try_generate(apigen.request(files, ",".join(case["opts"]), targets=targets))
+    if err:
+        ctx.fail("generation:" + err[0], f"generator raised {err[0]}: {err[1]}", payload)
+        return
+    k = 0
+    for fd in case["files"]:
+        mine = [f"Msg{j}" for j in range(k, k + fd["messages"])]; k += fd["messages"]
+        if fd["base"] != "__init__":
+            continue
+        tdir = expected_root(case)[0] + "/types/"
+        holders = [f.name for f in res.file if f.name.startswith(tdir) and f.name != tdir + "__init__.py" and all(f"class {m}(" in f.content for m in mine)]
+        if len(holders) != 1:
+            init = next((f.content for f in res.file if f.name == tdir + "__init__.py"), "")
+            ctx.fail("types-module-lost:__init__.proto", f"messages {mine} of __init__.proto are classes of no types module under {tdir} "
+                     f"({sorted(f.name for f in res.file if f.name.startswith(tdir))}); {tdir}__init__.py "
+                     f"{'imports from itself (`from .__init__ import`)' if 'from .__init__ import' in init else 'does not mention them'}", payload)
+    ctx.traces += 1
+
+
 def run(ctx):
     ctx.rule = ("layout profile: 0..3 namespace segments x versions {v1, v1beta1, v1p1beta1, v2alpha, none} x 1..3 target files with names needing "
-                "sanitising x optional dependency file x optional sub-package tree (1..3 levels, 1..2 branches, intermediate packages with and "
+                "sanitising or starting/ending with underscores, with digits and upper case x optional dependency file x optional sub-package tree (1..3 levels, 1..2 branches, intermediate packages with and "
                 "without files, services/messages at any level) x option strings (known, unknown, repeated keys, "
                 "name override as 1..3 repeated keys with different values, repeated transport / warehouse-package-name, namespace override as "
                 "1..3 repeated keys each with 1..3 dotted components, interleaved); Naming.build under override option strings (0..4 namespace "
                 "values, 0..3 name / transport / warehouse values) x packages; _get_filename: every template of both template sets x random namings; distinct by case")
+    ctx.assume("no RANDOM target file is named `__init__.proto` (its types module would be the types package's __init__.py: open finding, replayed from the corpus)")
     ctx.assume("sub-package segments are not `types`/`services` (they would share a directory with the types/services packages of the parent)")
     ctx.assume("namespace/name override values are made of [A-Za-z0-9_] components separated by '.' (names also by blanks), no empty component")
     r = ctx.rng("layout")
     t2_filenames(ctx, r)
     t2_naming_options(ctx, r)
     t2_naming_overrides(ctx, r)
+    run_init_proto(ctx, INIT_PROTO_CASE)
+    ctx.case({"case": "acme.lib.v1", "files": ["lib", "__init__"]}, distinct_key=["case", json.dumps(INIT_PROTO_CASE, sort_keys=True)])
     for c in CORPUS:
         run_case(ctx, c, "corpus")
         ctx.case({"case": c["pkg"], "unknown": c["unknown"]}, distinct_key=["case", json.dumps(c, sort_keys=True)])
@@ -644,7 +720,9 @@ def search(ctx):
 def replay(ctx, payload):
     import leanio
     ctx.driver = leanio.Driver()
-    if "case" in payload:
+    if "case" in payload and payload["case"].get("init_proto"):
+        run_init_proto(ctx, payload["case"])
+    elif "case" in payload:
         run_case(ctx, payload["case"], "replay")
     if "naming" in payload:
         inp = payload["naming"]
